@@ -63,78 +63,63 @@ Definition sw_storage : st_state :=
                 ("block_reward.zeta.mu", sw_one); ("block_reward.zeta.i", sw_one); ("block_reward.zeta.k", sw_one)];
      g_pend := [] |}.
 
-(* ---- refutations ---- *)
+(* ---- the repaired behaviour on the former triggers ---- *)
 
-(* minersc stores a cost key that no table lists *)
-Lemma sw_unknown_cost_accepted :
-  snd (st_step KMiner sw_env sw_miner (OpUpdate (sw_txn [sw_ent "cost.bogus" "5" (sw_po_int 5)]))) = OutOk /\
-  st_get (g_conf (fst (st_step KMiner sw_env sw_miner (OpUpdate (sw_txn [sw_ent "cost.bogus" "5" (sw_po_int 5)]))))) "cost.bogus" = Some (SvZ 5) /\
-  st_listedb (st_spec_of KMiner) (sw_ent "cost.bogus" "5" (sw_po_int 5)) = false /\
-  st_listedb (st_spec_of KStorage) (sw_ent "cost.bogus" "5" (sw_po_int 5)) = false.
+(* a key with the "cost." prefix that no table lists is refused by minersc and storagesc *)
+Lemma sw_unknown_cost_refused :
+  snd (st_step KMiner sw_env sw_miner (OpUpdate (sw_txn [sw_ent "cost.bogus" "5" (sw_po_int 5)]))) = OutReject /\
+  snd (st_step KStorage sw_env sw_storage (OpUpdate (sw_txn [sw_ent "cost.bogus" "5" (sw_po_int 5)]))) = OutReject /\
+  snd (st_step KMiner sw_env sw_miner (OpUpdate (sw_txn [sw_ent "cost.add_miner" "5" (sw_po_int 5)]))) = OutOk.
 Proof. vm_compute. repeat split. Qed.
 
-(* vestingsc saves max_destinations = 0 *)
-Lemma sw_vesting_invalid_saved :
+(* vestingsc validates: max_destinations = 0 is refused *)
+Lemma sw_vesting_invalid_refused :
   st_valid_of KVesting (g_conf sw_vesting) = true /\
-  snd (st_step KVesting sw_env sw_vesting (OpUpdate (sw_txn [sw_ent "max_destinations" "0" (sw_po_int 0)]))) = OutOk /\
-  st_valid_of KVesting (g_conf (fst (st_step KVesting sw_env sw_vesting (OpUpdate (sw_txn [sw_ent "max_destinations" "0" (sw_po_int 0)]))))) = false.
-Proof. vm_compute. repeat split. Qed.
+  st_step KVesting sw_env sw_vesting (OpUpdate (sw_txn [sw_ent "max_destinations" "0" (sw_po_int 0)])) = (sw_vesting, OutReject).
+Proof. vm_compute. split; reflexivity. Qed.
 
-(* storagesc, "demeter" active: update_settings saves max_delegates = 0 *)
-Lemma sw_storage_demeter_invalid_saved :
+(* storagesc, "demeter" active: update_settings validates before anything is written *)
+Lemma sw_storage_demeter_invalid_refused :
   st_valid_of KStorage (g_conf sw_storage) = true /\
-  snd (st_step KStorage sw_env_demeter sw_storage (OpUpdate (sw_txn [sw_ent "max_delegates" "0" (sw_po_int 0)]))) = OutOk /\
-  st_valid_of KStorage (g_conf (fst (st_step KStorage sw_env_demeter sw_storage (OpUpdate (sw_txn [sw_ent "max_delegates" "0" (sw_po_int 0)]))))) = false.
-Proof. vm_compute. repeat split. Qed.
+  st_step KStorage sw_env_demeter sw_storage (OpUpdate (sw_txn [sw_ent "max_delegates" "0" (sw_po_int 0)])) = (sw_storage, OutReject).
+Proof. vm_compute. split; reflexivity. Qed.
 
-(* and without demeter the same request only becomes pending; the commit then rejects it *)
+(* without demeter the same request only becomes pending; the commit then rejects it *)
 Lemma sw_storage_commit_validates :
   let s1 := fst (st_step KStorage sw_env sw_storage (OpUpdate (sw_txn [sw_ent "max_delegates" "0" (sw_po_int 0)]))) in
   g_conf s1 = g_conf sw_storage /\ snd (st_step KStorage sw_env s1 OpCommit) = OutReject.
 Proof. vm_compute. split; reflexivity. Qed.
 
-(* two distinct request keys naming one setting: the result depends on the iteration order *)
+(* two spellings of one storagesc key are refused, in either order *)
 Definition sw_alias1 := [sw_ent " max_delegates" "7" (sw_po_int 7); sw_ent "max_delegates" "9" (sw_po_int 9)].
 Definition sw_alias2 := [sw_ent "max_delegates" "9" (sw_po_int 9); sw_ent " max_delegates" "7" (sw_po_int 7)].
+Lemma sw_alias_refused :
+  st_update (st_spec_of KStorage) (g_conf sw_storage) sw_alias1 = RReject /\
+  st_update (st_spec_of KStorage) (g_conf sw_storage) sw_alias2 = RReject.
+Proof. vm_compute. split; reflexivity. Qed.
 
-Lemma sw_alias_order_dependent :
-  Permutation sw_alias1 sw_alias2 /\ NoDup (map e_key sw_alias1) /\
-  ~ st_res_same (st_update (st_spec_of KStorage) (g_conf sw_storage) sw_alias1)
-                (st_update (st_spec_of KStorage) (g_conf sw_storage) sw_alias2).
-Proof.
-  split; [apply perm_swap|]. split.
-  - constructor; [cbn; intros [H|[]]; discriminate | constructor; [intros []|constructor]].
-  - intro H. vm_compute in H. specialize (H "max_delegates"). vm_compute in H. discriminate.
-Qed.
-
-Definition sw_calias1 := [sw_ent "cost.POUR" "7" (sw_po_int 7); sw_ent "cost.pour" "9" (sw_po_int 9)].
-Definition sw_calias2 := [sw_ent "cost.pour" "9" (sw_po_int 9); sw_ent "cost.POUR" "7" (sw_po_int 7)].
-
-Lemma sw_cost_alias_order_dependent :
-  ~ st_res_same (st_update (st_spec_of KFaucet) (g_conf sw_faucet) sw_calias1)
-                (st_update (st_spec_of KFaucet) (g_conf sw_faucet) sw_calias2).
-Proof. intro H. vm_compute in H. specialize (H "cost.pour"). vm_compute in H. discriminate. Qed.
-
-(* faucetsc: a cost key ends the loop; what follows it is neither checked nor applied *)
+(* faucetsc: a cost key no longer ends the loop: what follows it is checked and applied, in either order *)
 Definition sw_cost_then_unknown := [sw_ent "cost.pour" "5" (sw_po_int 5); sw_ent "nope" "1" (sw_po_int 1)].
 Definition sw_cost_then_valid := [sw_ent "cost.pour" "5" (sw_po_int 5); sw_ent "pour_amount" "2" (sw_po_int 2)].
 Definition sw_valid_then_cost := [sw_ent "pour_amount" "2" (sw_po_int 2); sw_ent "cost.pour" "5" (sw_po_int 5)].
+Lemma sw_cost_key_does_not_end_loop :
+  snd (st_step KFaucet sw_env sw_faucet (OpUpdate (sw_txn sw_cost_then_unknown))) = OutReject /\
+  st_update (st_spec_of KFaucet) (g_conf sw_faucet) sw_cost_then_valid = st_update (st_spec_of KFaucet) (g_conf sw_faucet) sw_valid_then_cost /\
+  (match st_update (st_spec_of KFaucet) (g_conf sw_faucet) sw_cost_then_valid with
+   | ROk c => st_get c "pour_amount" = Some (SvZ 20000000000) /\ st_get c "cost.pour" = Some (SvZ 5)
+   | _ => False end).
+Proof. vm_compute. repeat split. Qed.
 
-Lemma sw_cost_ends_loop :
-  snd (st_step KFaucet sw_env sw_faucet (OpUpdate (sw_txn sw_cost_then_unknown))) = OutOk /\
-  st_eval (st_spec_of KFaucet) (sw_ent "nope" "1" (sw_po_int 1)) = RReject /\
-  NoDup (map (st_skey (st_spec_of KFaucet)) sw_cost_then_valid) /\
-  ~ st_res_same (st_update (st_spec_of KFaucet) (g_conf sw_faucet) sw_cost_then_valid)
-                (st_update (st_spec_of KFaucet) (g_conf sw_faucet) sw_valid_then_cost).
-Proof.
-  split; [vm_compute; reflexivity|]. split; [vm_compute; reflexivity|]. split.
-  - vm_compute. constructor; [intros [H|[]]; discriminate | constructor; [intros []|constructor]].
-  - intro H. vm_compute in H. specialize (H "pour_amount"). vm_compute in H. discriminate.
-Qed.
+(* the two spellings of a faucetsc cost key are applied in sorted key order, whatever the map order *)
+Definition sw_calias1 := [sw_ent "cost.POUR" "7" (sw_po_int 7); sw_ent "cost.pour" "9" (sw_po_int 9)].
+Definition sw_calias2 := [sw_ent "cost.pour" "9" (sw_po_int 9); sw_ent "cost.POUR" "7" (sw_po_int 7)].
+Lemma sw_cost_alias_sorted :
+  st_update (st_spec_of KFaucet) (g_conf sw_faucet) sw_calias1 = st_update (st_spec_of KFaucet) (g_conf sw_faucet) sw_calias2.
+Proof. vm_compute. reflexivity. Qed.
 
-(* a coin-typed setting given "NaN": strconv.ParseFloat accepts it, currency.ParseZCN panics *)
-Lemma sw_nan_panics :
-  snd (st_step KMiner sw_env sw_miner (OpUpdate (sw_txn [sw_ent "min_stake" "NaN" sw_po_nan]))) = OutPanic.
+(* a coin-typed setting given "NaN" (currency.ParseZCN would panic) is refused *)
+Lemma sw_nan_refused :
+  st_step KMiner sw_env sw_miner (OpUpdate (sw_txn [sw_ent "min_stake" "NaN" sw_po_nan])) = (sw_miner, OutReject).
 Proof. vm_compute. reflexivity. Qed.
 
 (* ---- a non-trivial run used as satisfiability example ---- *)
@@ -151,63 +136,3 @@ Lemma sw_run_example :
   st_get (g_conf s) "max_n" = Some (SvZ 9) /\ st_get (g_conf s) "cost.add_miner" = Some (SvZ 12) /\
   st_get (g_conf s) "max_s" = Some (SvZ 2).
 Proof. vm_compute. repeat split. Qed.
-
-(* ---- the refutations in the form used by Prop/C48.v ---- *)
-
-Lemma sw_refute_only_listed :
-  ~ (forall k env s o s', st_step k env s o = (s', OutOk) ->
-       Forall (fun e => st_listedb (st_spec_of k) e = true /\ exists kv, st_eval (st_spec_of k) e = ROk kv)
-              (st_reached (st_spec_of k) (st_applied k s o))).
-Proof.
-  intro F.
-  pose (t := OpUpdate (sw_txn [sw_ent "cost.bogus" "5" (sw_po_int 5)])).
-  specialize (F KMiner sw_env sw_miner t (fst (st_step KMiner sw_env sw_miner t))).
-  assert (E : st_step KMiner sw_env sw_miner t = (fst (st_step KMiner sw_env sw_miner t), OutOk)) by (vm_compute; reflexivity).
-  specialize (F E). cbn [st_applied t sw_txn t_entries] in F.
-  rewrite st_reached_all_contract in F by discriminate.
-  inversion F as [|x l [L _] _]; subst.
-  vm_compute in L. discriminate.
-Qed.
-
-Lemma sw_refute_every_entry_checked :
-  ~ (forall k env s o s', st_step k env s o = (s', OutOk) ->
-       Forall (fun e => exists kv, st_eval (st_spec_of k) e = ROk kv) (st_applied k s o)).
-Proof.
-  intro F. destruct sw_cost_ends_loop as [O [E _]].
-  pose (t := OpUpdate (sw_txn sw_cost_then_unknown)).
-  assert (X : st_step KFaucet sw_env sw_faucet t = (fst (st_step KFaucet sw_env sw_faucet t), OutOk)).
-  { rewrite <- O. apply surjective_pairing. }
-  specialize (F _ _ _ _ _ X). cbn [st_applied t sw_txn t_entries] in F.
-  inversion F as [|x l _ F2]; subst. inversion F2 as [|y l2 [kv Y] _]; subst.
-  rewrite E in Y. discriminate.
-Qed.
-
-Lemma sw_refute_valid_vesting :
-  ~ (forall k env s o s', st_valid_of k (g_conf s) = true -> st_step k env s o = (s', OutOk) -> st_valid_of k (g_conf s') = true).
-Proof.
-  intro F. destruct sw_vesting_invalid_saved as [V [O I]].
-  pose (t := OpUpdate (sw_txn [sw_ent "max_destinations" "0" (sw_po_int 0)])).
-  assert (X : st_valid_of KVesting (g_conf (fst (st_step KVesting sw_env sw_vesting t))) = true).
-  { apply (F KVesting sw_env sw_vesting t _ V). rewrite <- O. apply surjective_pairing. }
-  unfold t in X. rewrite I in X. discriminate.
-Qed.
-
-Lemma sw_refute_valid_storage_demeter :
-  ~ (forall k env s o s', st_valid_of k (g_conf s) = true -> st_step k env s o = (s', OutOk) -> st_valid_of k (g_conf s') = true).
-Proof.
-  intro F. destruct sw_storage_demeter_invalid_saved as [V [O I]].
-  pose (t := OpUpdate (sw_txn [sw_ent "max_delegates" "0" (sw_po_int 0)])).
-  assert (X : st_valid_of KStorage (g_conf (fst (st_step KStorage sw_env_demeter sw_storage t))) = true).
-  { apply (F KStorage sw_env_demeter sw_storage t _ V). rewrite <- O. apply surjective_pairing. }
-  unfold t in X. rewrite I in X. discriminate.
-Qed.
-
-Lemma sw_refute_same_on_every_node :
-  ~ (forall k s es1 es2, Permutation es1 es2 -> NoDup (map e_key es1) ->
-       st_res_same (st_update (st_spec_of k) s es1) (st_update (st_spec_of k) s es2)).
-Proof.
-  intro F. destruct sw_alias_order_dependent as [P [N D]]. apply D. apply (F KStorage); assumption.
-Qed.
-
-Lemma sw_refute_no_panic : ~ (forall k env s o, snd (st_step k env s o) <> OutPanic).
-Proof. intro F. apply (F KMiner sw_env sw_miner _ sw_nan_panics). Qed.
